@@ -3,6 +3,7 @@ package converters
 import (
 	"bufio"
 	"encoding/binary"
+	"errors"
 	"fmt"
 	"io"
 	"log"
@@ -253,20 +254,29 @@ func NewCacheFile(cachePath string) (*cacheFile, error) {
 	}
 
 	// Read all stream ids
+	partialRecord := false
 	for {
 		streamSection := converterStreamSection{}
 		if err := binary.Read(buffer, binary.LittleEndian, &streamSection); err != nil {
 			if err == io.EOF {
 				break
 			}
+			if err == io.ErrUnexpectedEOF {
+				partialRecord = true
+				break
+			}
 			return nil, fmt.Errorf("failed to read stream header: %w", err)
 		}
-		res.fileSize += streamHeaderSize
 
 		streamSize, err := skipStream(buffer)
 		if err != nil {
+			if errors.Is(err, io.EOF) || errors.Is(err, io.ErrUnexpectedEOF) {
+				partialRecord = true
+				break
+			}
 			return nil, fmt.Errorf("failed to skip stream data: %w", err)
 		}
+		res.fileSize += streamHeaderSize
 
 		if info, ok := res.streamInfos[streamSection.StreamID]; ok {
 			if res.freeSize == 0 || res.freeStart > info.offset-streamHeaderSize {
@@ -279,6 +289,14 @@ func NewCacheFile(cachePath string) (*cacheFile, error) {
 			size:   uint64(streamSize),
 		}
 		res.fileSize += int64(streamSize)
+	}
+	if partialRecord {
+		// The last record was only partly written (e.g. the process was
+		// killed while writing it). Keep all complete records and drop it.
+		log.Printf("Converter cache file(%q) ends with a partly written record, truncating to %d bytes\n", res.cachePath, res.fileSize)
+		if err := file.Truncate(res.fileSize); err != nil {
+			return nil, fmt.Errorf("failed to truncate partly written record: %w", err)
+		}
 	}
 	if res.freeSize == 0 {
 		res.freeStart = res.fileSize
